@@ -10,3 +10,11 @@ func VerifIsValidPart(s string) bool { return isValidPart(s) }
 
 // VerifIsValidPath exposes isValidPath.
 func VerifIsValidPath(s string) bool { return isValidPath(s) }
+
+// VerifHandleReconnect runs the handler the service installs on a *nats.Conn
+// for reconnects (a system.reset followed by the OnReconnect callback).
+func (s *Service) VerifHandleReconnect() { s.handleReconnect(nil) }
+
+// VerifHandleDisconnect runs the handler the service installs on a *nats.Conn
+// for disconnects (the OnDisconnect callback).
+func (s *Service) VerifHandleDisconnect() { s.handleDisconnect(nil) }
